@@ -53,5 +53,100 @@ def offline(ctx, res):
         for v in vs:
             res.viols.append({"t": "viol", "prop": "C01", **v})
     res.counters["cli_replays"] = runs[0]
+    fuzz_cov = fuzz_leg(ctx, res) if ctx["tier"] == "thorough" else {"skipped": "libFuzzer + ASan leg runs in the thorough tier only"}
     return {"evaluations": runs[0], "nontrivial": 0, "distinct_nontrivial": 0,
-            "coverage": {"cli_leg": {"records_replayed": len(recs), "cli_invocations": runs[0], "modes": ["file", "inline", "-e stdin", "--format", "-i", "stdin inputs"]}}}
+            "coverage": {"libfuzzer_asan_leg": fuzz_cov, "cli_leg": {"records_replayed": len(recs), "cli_invocations": runs[0], "modes": ["file", "inline", "-e stdin", "--format", "-i", "stdin inputs"]}}}
+
+
+def max_nesting(src):
+    depth = best = 0
+    for c in src:
+        if c in "([{":
+            depth += 1
+            best = max(best, depth)
+        elif c in ")]}":
+            depth = max(0, depth - 1)
+    return best
+
+
+def fuzz_leg(ctx, res):
+    """Thorough only: coverage-guided libFuzzer + AddressSanitizer run of the pipeline target (nightly toolchain). The fuzzer is
+    a workload generator: every artefact it saves is replayed through the pinned-toolchain probe, whose monitors decide."""
+    import glob
+    import shutil
+    import subprocess
+    import time
+    harness = os.path.join(common.VERIF, "harness")
+    work = os.path.join(ctx["rundir"], "fuzz")
+    corpus = os.path.join(work, "corpus")
+    arts = os.path.join(work, "artifacts")
+    os.makedirs(corpus, exist_ok=True)
+    os.makedirs(arts, exist_ok=True)
+    n = 0
+    for pat in ("/repo/examples/*.blots", "/repo/benches/*.blots"):
+        for f in sorted(glob.glob(pat)):
+            try:
+                text = open(f).read()
+            except Exception:
+                continue
+            for chunk in text.split("\n\n"):
+                if 0 < len(chunk) < 500:
+                    with open(os.path.join(corpus, f"seed{n}"), "w") as out:
+                        out.write(chunk)
+                    n += 1
+    env = dict(common.ENV)
+    b = subprocess.run(["cargo", "+nightly", "fuzz", "build", "pipeline"], cwd=harness, env=env, stdout=subprocess.PIPE, stderr=subprocess.STDOUT, text=True)
+    if b.returncode != 0:
+        return {"status": "inconclusive: fuzz target does not build", "tail": b.stdout[-500:]}
+    secs = int(os.environ.get("VERIF_FUZZ_SECONDS", "150"))
+    t0 = time.time()
+    cmd = ["cargo", "+nightly", "fuzz", "run", "pipeline", corpus, "--", f"-max_total_time={secs}", "-timeout=10", "-rss_limit_mb=4096", "-max_len=600",
+           f"-fork={min(16, common.NCPU)}", "-ignore_crashes=1", "-ignore_timeouts=1", "-ignore_ooms=1", f"-artifact_prefix={arts}/", f"-seed={ctx['seed']}"]
+    try:
+        r = subprocess.run(cmd, cwd=harness, env=env, stdout=subprocess.PIPE, stderr=subprocess.STDOUT, text=True, timeout=secs + 300)
+        out = r.stdout
+    except subprocess.TimeoutExpired as e:
+        out = (e.stdout or b"").decode("utf-8", "replace") if isinstance(e.stdout, bytes) else (e.stdout or "")
+    execs = 0
+    for line in out.splitlines():
+        if "#" in line and "cov:" in line:
+            try:
+                execs = max(execs, int(line.split("#")[1].split()[0].rstrip(":")))
+            except Exception:
+                pass
+    files = sorted(glob.glob(os.path.join(arts, "*")))
+    crashes = [f for f in files if os.path.basename(f).startswith("crash-")]
+    others = [f for f in files if not os.path.basename(f).startswith("crash-")]
+    confirmed = 0
+    for f in crashes[:200]:
+        try:
+            src = open(f, "rb").read().decode("utf-8")
+        except Exception:
+            continue
+        outp = os.path.join(work, os.path.basename(f) + ".jsonl")
+        with open(outp, "w") as fo:
+            try:
+                p = subprocess.run([common.PROBE, "C01", "--part", "replay", "--file", f, "--seed", str(ctx["seed"])], stdout=fo, stderr=subprocess.PIPE, timeout=60, env=env, cwd=work)
+                rc = p.returncode
+            except subprocess.TimeoutExpired:
+                rc = "timeout"
+        if rc == 0:
+            for line in open(outp):
+                try:
+                    ev = json.loads(line)
+                except Exception:
+                    continue
+                if ev.get("t") == "viol" and ev.get("prop") == "C01":
+                    confirmed += 1
+                    ev["case"]["found_by"] = "libFuzzer+ASan artefact replayed through the probe"
+                    res.viols.append(ev)
+        elif rc == "timeout":
+            res.inconclusive_cases.append(f"fuzz artefact replay timed out: {src[:120]!r}")
+        elif max_nesting(src) <= 64:
+            res.viols.append({"t": "viol", "prop": "C01", "sig": f"process-death on fuzz artefact rc={rc}", "what": "the probe process died replaying a libFuzzer artefact",
+                              "case": {"source": src, "rc": str(rc)}})
+            confirmed += 1
+    for f in others[:50]:
+        res.inconclusive_cases.append(f"libFuzzer {os.path.basename(f).split('-')[0]} artefact (resource exhaustion class, no verdict)")
+    return {"status": "ran", "seconds": round(time.time() - t0, 1), "executions_reported": execs, "seed_corpus_files": n, "crash_artifacts": len(crashes),
+            "timeout_or_oom_artifacts": len(others), "artifacts_confirmed_by_probe_monitors": confirmed, "sanitizer": "AddressSanitizer (cargo-fuzz default), nightly toolchain"}
